@@ -71,6 +71,39 @@ func (t rt) RoundTrip(req *http.Request) (*http.Response, error) {
 
 var baseReq, _ = http.NewRequest(http.MethodGet, "http://verif.invalid/events", http.NoBody)
 
+// RunWith executes the case with the given reader (C20 counts what is pulled from it). ownBuf: give the
+// Connection a small buffer of its own instead of nil.
+func RunWith(c Case, r io.Reader, ownBuf bool) ([]sse.Event, error) {
+	var events []sse.Event
+	if c.Conn {
+		cl := sse.Client{HTTPClient: &http.Client{Transport: rt{r}}, ResponseValidator: sse.NoopValidator, Backoff: sse.Backoff{MaxRetries: -1}}
+		conn := cl.NewConnection(baseReq)
+		if c.MaxSize > 0 {
+			if ownBuf {
+				conn.Buffer(make([]byte, 4), c.MaxSize)
+			} else {
+				conn.Buffer(nil, c.MaxSize)
+			}
+		}
+		conn.SubscribeToAll(func(e sse.Event) { events = append(events, e) })
+		return events, conn.Connect()
+	}
+	var cfg *sse.ReadConfig
+	if c.MaxSize > 0 {
+		cfg = &sse.ReadConfig{MaxEventSize: c.MaxSize}
+	}
+	var err error
+	sse.Read(r, cfg)(func(e sse.Event, e2 error) bool {
+		if e2 != nil {
+			err = e2
+			return false
+		}
+		events = append(events, e)
+		return true
+	})
+	return events, err
+}
+
 // RunImpl executes the case on the real code.
 func RunImpl(c Case) (events []sse.Event, err error, afterErr bool) {
 	r := &ChunkReader{Data: c.Stream, Cuts: c.Cuts, EOFWithLast: c.EOFWithLast}
